@@ -383,12 +383,15 @@ def tree_size(shape_name):
   return sum(int(np.prod(s)) for _, s in TREES[shape_name])
 
 
-def make_tree(shape_name, values):
+def make_tree(shape_name, values, dtype='f32'):
   out, pos = {}, 0
   for name, shape in TREES[shape_name]:
     n = int(np.prod(shape))
     out[name] = jnp.asarray(
         (np.asarray(values[pos:pos + n], np.float32) / 8.0).reshape(shape))
+    if dtype == 'bf16':
+      # low-precision client updates (k/8 with |k| <= 64 is exact in bfloat16)
+      out[name] = out[name].astype(jnp.bfloat16)
     pos += n
   return out
 
@@ -413,7 +416,8 @@ class AggregatorSystem:
   def __init__(self, case):
     self.aggregator = build_aggregator(case['system'], case['levels'],
                                        case['seed'])
-    self.trees = [make_tree(case['tree'], c['values']) for c in case['pool']]
+    self.trees = [make_tree(case['tree'], c['values'], case.get('dtype', 'f32'))
+                  for c in case['pool']]
     self.weights = [float(c['weight']) for c in case['pool']]
     self.other = None
     if case.get('other_instance'):
@@ -670,6 +674,7 @@ def labels(case):
   else:
     ls.append('levels:%d' % case['levels'])
     ls.append('tree:' + case['tree'])
+    ls.append('leaves:' + case.get('dtype', 'f32'))
   for k in ('effective_branch', 'repeat_client', 'duplicate_round',
             'returning_after_branch', 'branch_to_init', 'roundtrip_of_init',
             'double_roundtrip'):
@@ -828,6 +833,8 @@ def aggregator_strategy(draw, tier):
   case = {'system': name, 'levels': levels,
           'seed': draw(st.integers(0, 2**20)), 'tree': tree, 'pool': pool,
           'ops': ops}
+  if draw(st.integers(0, 3)) == 0:
+    case['dtype'] = 'bf16'
   case.update(draw(other_instance_fields(ops)))
   return case
 
@@ -883,6 +890,13 @@ def run_cross_process(case):
   from vf import env as _env
   system = _system_of(case)
   applies = _linear_applies(case)
+  if case['system'] in AGGS:
+    # what else this process may have done before: a round of an unrelated
+    # aggregator of the same kind over float32 trees of the same shapes (the
+    # process that restarts from the pickled state has no such past)
+    other = dict(case, dtype='f32')
+    warm = AggregatorSystem(other)
+    warm.apply(warm.init(), warm.make_args(['apply', [0, 1]]))
   state = system.init()
   for op in applies[:-1]:
     state, _ = system.apply(state, system.make_args(op))
@@ -922,6 +936,10 @@ def cross_process_strategy(draw, tier):
     case['system'] = which
     if which == 'uniform_arith':
       case['levels'] = min(case['levels'], 3)
+    if draw(st.booleans()):
+      case['dtype'] = 'bf16'
+    else:
+      case.pop('dtype', None)
   else:
     case = draw(algorithm_strategy(which)(tier))
   case['ops'] = _linear_applies(case)[:3]
